@@ -198,11 +198,18 @@ def be_bytes(ctx, v, w):
         return [Unit(v.t)]
     if v.digits is not None and len(v.digits) == w:
         return [Unit(b) for b in v.digits]
-    xs = [ctx.fresh_int("byte") for _ in range(w)]
-    for x in xs:
-        ctx.assume(z3.And(x >= 0, x < 256))
-    ctx.assume(v.t == z3.Sum([x * (256 ** (w - 1 - i)) for i, x in enumerate(xs)]))
-    return [Unit(x) for x in xs]
+    # the digits of one value are unique: one set of digit symbols per (value, width) and path
+    memo = getattr(ctx, "_digits", None)
+    if memo is None:
+        memo = ctx._digits = {}
+    key = (z3.simplify(v.t).sexpr(), w)
+    if key not in memo:
+        xs = [ctx.fresh_int("byte") for _ in range(w)]
+        for x in xs:
+            ctx.assume(z3.And(x >= 0, x < 256))
+        ctx.assume(v.t == z3.Sum([x * (256 ** (w - 1 - i)) for i, x in enumerate(xs)]))
+        memo[key] = xs
+    return [Unit(x) for x in memo[key]]
 
 
 def eq_formula(ctx, a: SBytes, b: SBytes):
